@@ -306,4 +306,53 @@ theorem LinkS_del_map (ms : MapSt) (k : Key) (g : Val) : (MM.run (Gen.MemoryStor
     · mm_simp [Gen.MemoryStore_del_map, hd, hany]
     · cases hf : m.find? (fun p => p.1 = g) <;> mm_simp [Gen.MemoryStore_del_map, hd, hany, hf]
 
+theorem SM_onState_run {α} (i : Nat) (m : OM α) (tbl : List PyStoreSt) (st : PyStoreSt) (h : tbl[i]? = some st) :
+    SM.run (SM.onState i m) tbl = ((OM.run m st).1, tbl.set i (OM.run m st).2) := by
+  cases hr : (OM.run m st).1 <;>
+  simp [SM.run, SM.onState, h, hr, ExceptT.run, bind, ExceptT.bind, ExceptT.mk, ExceptT.bindCont, StateT.bind, get, getThe, MonadStateOf.get,
+    StateT.get, liftM, monadLift, MonadLift.monadLift, ExceptT.lift, Functor.map, StateT.map, pure, ExceptT.pure, StateT.pure, set, MonadStateOf.set, StateT.set,
+    StateT.run, throw, throwThe, MonadExceptOf.throw]
+
+theorem SM_onState_oob {α} (i : Nat) (m : OM α) (tbl : List PyStoreSt) (h : tbl[i]? = none) :
+    SM.run (SM.onState i m) tbl = (.error "IndexError", tbl) := by
+  simp [SM.run, SM.onState, h, ExceptT.run, bind, ExceptT.bind, ExceptT.mk, ExceptT.bindCont, StateT.bind, get, getThe, MonadStateOf.get,
+    StateT.get, liftM, monadLift, MonadLift.monadLift, ExceptT.lift, Functor.map, StateT.map, pure, StateT.pure,
+    StateT.run, throw, throwThe, MonadExceptOf.throw]
+
+/-- **`StoreManager.set_state / get_state / add_key / del_key`** (rxsci/state/store.py, generated: the manager asks its single
+`Store`, which calls the method of the same name on `self.states[state]`): the call IS the `MemoryStore` method — generated from
+memory_store.py and linked to the L0 model by `LinkS_*` — on the object of that state id, with the same key and value, and the
+object of every other state id is left as it was -/
+theorem LinkS_manager (i : Nat) (tbl : List PyStoreSt) (st : PyStoreSt) (h : tbl[i]? = some st) (k : Key) (v : Val) :
+    SM.run (Gen.StoreManager_set_state i k v) tbl
+        = ((OM.run (Gen.MemoryStore_set k v) st).1, tbl.set i (OM.run (Gen.MemoryStore_set k v) st).2)
+    ∧ SM.run (Gen.StoreManager_get_state i k) tbl
+        = ((OM.run (Gen.MemoryStore_get k) st).1, tbl.set i (OM.run (Gen.MemoryStore_get k) st).2)
+    ∧ SM.run (Gen.StoreManager_add_key i k) tbl
+        = ((OM.run (Gen.MemoryStore_add_key k) st).1, tbl.set i (OM.run (Gen.MemoryStore_add_key k) st).2)
+    ∧ SM.run (Gen.StoreManager_del_key i k) tbl
+        = ((OM.run (Gen.MemoryStore_del_key k) st).1, tbl.set i (OM.run (Gen.MemoryStore_del_key k) st).2) := by
+  refine ⟨?_, ?_, ?_, ?_⟩ <;>
+    simp only [Gen.StoreManager_set_state, Gen.Store_set, Gen.StoreManager_get_state, Gen.Store_get, Gen.StoreManager_add_key,
+      Gen.Store_add_key, Gen.StoreManager_del_key, Gen.Store_del_key, SM_onState_run _ _ _ _ h]
+
+/-- the frame of the manager's operations: the objects of the other state ids are untouched, whatever the call returns or raises,
+also when the state id does not exist -/
+theorem LinkS_manager_frame (i j : Nat) (hj : j ≠ i) (tbl : List PyStoreSt) (k : Key) (v : Val) :
+    (SM.run (Gen.StoreManager_set_state i k v) tbl).2[j]? = tbl[j]?
+    ∧ (SM.run (Gen.StoreManager_get_state i k) tbl).2[j]? = tbl[j]?
+    ∧ (SM.run (Gen.StoreManager_add_key i k) tbl).2[j]? = tbl[j]?
+    ∧ (SM.run (Gen.StoreManager_del_key i k) tbl).2[j]? = tbl[j]? := by
+  have hne : ¬ i = j := fun h => hj h.symm
+  cases h : tbl[i]? with
+  | none =>
+    refine ⟨?_, ?_, ?_, ?_⟩ <;>
+      simp only [Gen.StoreManager_set_state, Gen.Store_set, Gen.StoreManager_get_state, Gen.Store_get, Gen.StoreManager_add_key,
+        Gen.Store_add_key, Gen.StoreManager_del_key, Gen.Store_del_key, SM_onState_oob _ _ _ h]
+  | some st =>
+    obtain ⟨h1, h2, h3, h4⟩ := LinkS_manager i tbl st h k v
+    rw [h1, h2, h3, h4]
+    simp [List.getElem?_set, hne]
+
+
 end Rx
